@@ -6,9 +6,10 @@ CONSTANTS
   Actives = {0, 1, 2, 3}
   Starts = {2, 5}
   InitBlocks = {1, 3, 6}
-  MaxMsgs = 5
+  MaxMsgs = 6
   Slack = 2
   Faults = {"start", "delay", "initiate", "waiter", "next"}
   BadMsgs = {FALSE, TRUE}
+  ArrivalsPerState = 2
   Prompt = FALSE
 INVARIANTS Emit
